@@ -17,21 +17,22 @@ LEVEL_TEXT = (
     "only scan a finished batch are not search loops; (R2) finite-model interpretation of every search(): with a "
     "budget that answers 'not done' three times and then 'done', between two consecutive checks a non-empty batch"
     " of individuals created since the previous check (from a created / mutated genotype, or yielded by the step "
-    "/ initializer for GP and wrapped in a tracked Population) reaches tracker.evaluate, none twice, and nothing "
-    "is evaluated after 'done'; (R3) every SearchBudget.is_done is interpreted against a scripted tracker: "
-    "EvaluationBudget is 'evaluations >= limit' (9, 10, 11, 25 against 10), AnyOf is the disjunction with both "
-    "members consulted on the given tracker (truth table), TimeBudget is 'elapsed >= limit', TargetFitness is "
-    "false while there is no best and compares the first fitness component the best individual holds FOR THE "
-    "TRACKER'S PROBLEM (the individual also holds a fitness for an earlier problem that gives the opposite "
-    "answer; get_fitness() without a problem returns that one) with the target within an absolute tolerance "
-    "(targets 0, 5 and 1000 on a minimised problem, where the aggregate differs and a relative tolerance would "
-    "give other answers); the multi-objective target budgets are interpreted the same way (one target per "
-    "objective / one target for all, whichever the constructor announces); (R4) trackers / evaluators / budgets "
-    "keep no state shared between searches; (R5) the tracked population wrapper of the GP search (a constructor "
-    "taking an iterable of individuals and a tracker) - wherever it lives and however it is built - is "
-    "interpreted on [already evaluated, not evaluated]: every individual is handed to the tracker, because steps "
-    "evaluate through the raw evaluator and the tracker's best - what a target-fitness budget reads - is updated "
-    "only inside tracker.evaluate. (R6) functions outside the budget module that assemble a budget "
+    "/ initializer for GP and wrapped in a tracked Population) reaches tracker.evaluate, none twice, exactly one "
+    "batch per check (a second batch before the budget is consulted again lets a budget that is already met go "
+    "unnoticed for a whole batch), and nothing is evaluated after 'done'; (R3) every SearchBudget.is_done is "
+    "interpreted against a scripted tracker: EvaluationBudget is 'evaluations >= limit' (9, 10, 11, 25 against "
+    "10), AnyOf is the disjunction with both members consulted on the given tracker (truth table), TimeBudget is "
+    "'elapsed >= limit', TargetFitness is false while there is no best and compares the first fitness component "
+    "the best individual holds FOR THE TRACKER'S PROBLEM (the individual also holds a fitness for an earlier "
+    "problem that gives the opposite answer; get_fitness() without a problem returns that one) with the target "
+    "within an absolute tolerance (targets 0, 5 and 1000 on a minimised problem, where the aggregate differs and "
+    "a relative tolerance would give other answers); the multi-objective target budgets are interpreted the same "
+    "way (one target per objective / one target for all, whichever the constructor announces); (R4) trackers / "
+    "evaluators / budgets keep no state shared between searches; (R5) the tracked population wrapper of the GP "
+    "search (a constructor taking an iterable of individuals and a tracker) - wherever it lives and however it is"
+    " built - is interpreted on [already evaluated, not evaluated]: every individual is handed to the tracker, "
+    "because steps evaluate through the raw evaluator and the tracker's best - what a target-fitness budget reads"
+    " - is updated only inside tracker.evaluate. (R6) functions outside the budget module that assemble a budget "
     "(SimpleGP.build_budget) are interpreted: a parameter that, set to 7, turns up inside a budget object of the "
     "value returned - whatever the spelling: constructor calls, a table of classes folded with reduce - is a "
     "budget parameter, and with 0, 0.0 and a negative value (target budgets) or 1 (the others) the budget "
